@@ -145,10 +145,15 @@ contract(
         "before: temp = C4.charset.index(hash_string[i])": [
             "L_alphabet_char(hash_string[i])",
             "L_val58_snoc(hash_string[2:i], hash_string[i])",
-            "hash_string[2:i + 1] == hash_string[2:i] + hash_string[i]",
             "L_val58_cons(hash_string[i], '')",
-            "hash_string[2:90] == hash_string[2:i + 1] + hash_string[i + 1:90]",
             "L_ok58_split(hash_string[2:i + 1], hash_string[i + 1:90])",
+        ],
+    },
+    # two identities of string slicing that z3's sequence solver does not find on its own: proved here (cvc5), then used
+    cuts={
+        "before: temp = C4.charset.index(hash_string[i])": [
+            "hash_string[2:i + 1] == hash_string[2:i] + hash_string[i]",
+            "hash_string[2:90] == hash_string[2:i + 1] + hash_string[i + 1:90]",
         ],
     },
     props=["C01", "C07"],
@@ -214,9 +219,11 @@ contract(
                 "fresh(hasher.hasher)",
                 "hasher.hasher.absorbed == cat_dec(fmt_of(cls), _seq[:_i])",
             ],
-            lemmas=["L_cat_dec(fmt_of(cls), _seq[:_i], _seq[_i])", "_i >= len(_seq) or _seq[:_i + 1] == _seq[:_i] + [_seq[_i]]"],
+            lemmas=["L_cat_dec(fmt_of(cls), _seq[:_i], _seq[_i])"],
         )
     },
+    # identity of list slicing that z3's sequence solver does not find on its own: proved here (cvc5), then used
+    cuts={"before: hasher.update(cls.bytes_from_string_digest(hash_string))": ["_seq0[:_i0 + 1] == _seq0[:_i0] + [_seq0[_i0]]"]},
     props=["C07"],
 )
 
